@@ -191,56 +191,55 @@ def run_checks(specs, tier, seed):
         for sp in specs:
             results.append({'name': sp['name'], 'status': 'inconclusive', 'why': 'translator validation failed: ' + '; '.join(val['mismatches'][:3]), 'validation': val})
         return results
-    pool = mp.Pool(NCPU, initializer=explore._init_worker, initargs=(_ll_files,))
-    try:
-        for sp in specs:
-            t0 = time.time()
-            agg = explore.explore(sp, _ll_files, NCPU, max_seconds=sp.get('max_seconds', 600), pool=pool)
-            r = {'name': sp['name'], 'fn': sp['fn'], 'wall_s': agg['wall_s'], 'paths': agg['paths'], 'ir_steps': agg['steps'],
-                 'solver_queries': agg['queries'], 'solver_s': round(agg['solver_s'], 2), 'ends': agg['ends'], 'covers': agg['covers'],
-                 'bounds': sp.get('bounds', ''), 'functions': [demangle(f) for f in agg['fns'] if 'sml_rs' in f or 'crc' in f][:60],
-                 'samples': agg['samples'], 'validation': val, 'violations': [], 'traces_validated': val['vectors'] if not results else 0,
-                 'n_symbolic_bytes': sum(1 for c in sp['input'] if c == 'S'), 'input_len': len(sp['input'])}
-            incon = []
-            if not agg['complete']:
-                incon.append('exploration incomplete after %ss (%d paths done, %d prefixes left)' % (agg['wall_s'], agg['paths'], agg['left']))
-            if agg['ends'].get('unsupported'):
-                incon.append('%d paths ended in unsupported IR / engine limits: %s' % (agg['ends']['unsupported'], '; '.join(agg['unsupported'][:2])))
-            want_cover = sp.get('must_cover', [])
-            for c in want_cover:
-                if c not in agg['covers']:
-                    incon.append('vacuity: reachability witness %d never reached' % c)
-            groups = sp.get('report', ('fail', 'panic', 'budget'))
-            seen = set()
-            for v in agg['violations']:
-                if v['input_hex'] is None:
-                    continue
-                key = (v['kind'], str(v['info'])[:60])
-                if key in seen:
-                    continue
-                seen.add(key)
-                rep = native_replay(sp['fn'], v['input_hex'])
-                r['traces_validated'] += 1
-                v = dict(v, native={k: list(x) for k, x in rep.items()})
-                if v['kind'] == 'oob':
-                    # UB-class (out-of-bounds pointer use seen only by the IR memory model): reported separately
-                    incon.append('UB-class report (triage by reading): %s input=%s native=%s' % (v['info'], v['input_hex'][:80], rep))
-                    continue
-                if v['kind'] not in groups:
-                    incon.append('path ended in %s (%s), which this property does not judge; input=%s' % (v['kind'], v['info'], v['input_hex'][:80]))
-                    continue
-                if reproduced(rep):
-                    what = {'fail': 'check failed with code %s' % v['info'], 'panic': 'panic: %s' % v['info'], 'budget': 'no termination within the step budget'}[v['kind']]
-                    r['violations'].append({'message': '%s: %s' % (sp['name'], what), 'input_hex': v['input_hex'], 'fn': sp['fn'], 'native': v['native'], 'kind': v['kind'], 'info': str(v['info'])})
-                else:
-                    incon.append('model did not reproduce natively: %s %s input=%s native=%s' % (v['kind'], v['info'], v['input_hex'][:80], rep))
-            r['status'] = 'fail' if r['violations'] else ('inconclusive' if incon else 'pass')
-            if incon:
-                r['why'] = ' | '.join(incon[:4])
-            results.append(r)
-            log('[E2] %-28s %-12s paths=%-7d steps=%-10d queries=%-7d %.1fs %s' % (sp['name'], r['status'], r['paths'], r['ir_steps'], r['solver_queries'], r['wall_s'], r.get('why', '')[:150]))
-    finally:
-        pool.terminate(); pool.join()
+    def progress(k, agg):
+        log('[E2] %-34s paths=%-7d steps=%-10d queries=%-7d %.1fs ends=%s' % (specs[k]['name'], agg['paths'], agg['steps'], agg['queries'], agg['wall_s'], dict(agg['ends'])))
+    aggs = explore.explore_many(specs, _ll_files, NCPU, progress=progress)
+    for sp, agg in zip(specs, aggs):
+        r = {'name': sp['name'], 'fn': sp['fn'], 'wall_s': agg['wall_s'], 'paths': agg['paths'], 'ir_steps': agg['steps'],
+             'solver_queries': agg['queries'], 'solver_s': round(agg['solver_s'], 2), 'ends': agg['ends'], 'covers': agg['covers'],
+             'bounds': sp.get('bounds', ''), 'functions': [demangle(f) for f in agg['fns'] if 'sml_rs' in f or 'crc' in f][:60],
+             'samples': agg['samples'], 'validation': val if not results else {'vectors': val['vectors'], 'mismatches': []}, 'violations': [],
+             'traces_validated': val['vectors'] if not results else 0,
+             'n_symbolic_bytes': sum(1 for c in sp['input'] if c == 'S'), 'input_len': len(sp['input'])}
+        incon = []
+        if not agg['complete'] and not agg['violations']:
+            incon.append('exploration incomplete after %ss (%d paths done, %d prefixes left)' % (agg['wall_s'], agg['paths'], agg['left']))
+        if agg['ends'].get('unsupported'):
+            incon.append('%d paths ended in unsupported IR / engine limits: %s' % (agg['ends']['unsupported'], '; '.join(agg['unsupported'][:2])))
+        for c in sp.get('must_cover', []):
+            if c not in agg['covers']:
+                incon.append('vacuity: reachability witness %d never reached' % c)
+        if agg['paths'] and not agg['ends'].get('ok') and not agg['violations']:
+            incon.append('vacuity: no path reached the end of the check')
+        groups = sp.get('report', ('fail', 'panic', 'budget'))
+        seen = set()
+        for v in agg['violations']:
+            if v['input_hex'] is None:
+                continue
+            key = (v['kind'], str(v['info'])[:60])
+            if key in seen:
+                continue
+            seen.add(key)
+            rep = native_replay(sp['fn'], v['input_hex'])
+            r['traces_validated'] += 1
+            v = dict(v, native={k: list(x) for k, x in rep.items()})
+            if v['kind'] == 'oob':
+                incon.append('UB-class report (triage by reading): %s input=%s native=%s' % (v['info'], v['input_hex'][:80], rep))
+                continue
+            if v['kind'] not in groups:
+                incon.append('path ended in %s (%s), which this property does not judge; input=%s' % (v['kind'], v['info'], v['input_hex'][:80]))
+                continue
+            if reproduced(rep):
+                what = {'fail': 'check failed with code %s' % v['info'], 'panic': 'panic: %s' % v['info'], 'budget': 'no termination within the step budget', 'alloc': 'allocation: %s' % v['info']}[v['kind']]
+                r['violations'].append({'message': '%s: %s' % (sp['name'], what), 'input_hex': v['input_hex'], 'fn': sp['fn'], 'native': v['native'], 'kind': v['kind'], 'info': str(v['info'])})
+            else:
+                incon.append('model did not reproduce natively: %s %s input=%s native=%s' % (v['kind'], v['info'], v['input_hex'][:80], rep))
+        r['status'] = 'fail' if r['violations'] else ('inconclusive' if incon else 'pass')
+        if incon:
+            r['why'] = ' | '.join(incon[:4])
+        results.append(r)
+        if r['status'] != 'pass':
+            log('[E2] %-34s %s %s' % (sp['name'], r['status'], r.get('why', '')[:300] or [v['message'] for v in r['violations']][:2]))
     return results
 
 
